@@ -88,7 +88,22 @@ def dependency_cone(vfile: str):
             continue
         cone.add(f)
         todo += deps.get(f, [])
+    dependency_cone.deps = deps
     return sorted(cone)
+
+
+def dependents_of(failed: str, cone):
+    """files of the cone that (transitively) depend on `failed`, itself included"""
+    deps = getattr(dependency_cone, 'deps', {})
+    bad = {failed}
+    changed = True
+    while changed:
+        changed = False
+        for f in cone:
+            if f not in bad and any(d in bad for d in deps.get(f, [])):
+                bad.add(f)
+                changed = True
+    return bad
 
 
 STMT = re.compile(r'^\s*(Theorem|Lemma|Corollary|Example|Fact|Proposition)\s+([A-Za-z0-9_\']+)', re.M)
@@ -203,7 +218,7 @@ def run_cases(prop_id: str, name: str, header: str, cases, check_fn: str, case_t
             raise CoqError(f'cannot parse output of {f.name}', out)
         body = m.group(1).strip()
         if body:
-            failing.extend(k + int(x) for x in body.replace('\n', ' ').split(';'))
+            failing.extend(k + int(x.strip().split('%')[0]) for x in body.replace('\n', ' ').split(';'))
 
     pending = list(files)
     running = []
@@ -223,3 +238,21 @@ def run_cases(prop_id: str, name: str, header: str, cases, check_fn: str, case_t
         if f.suffix != '.v':
             f.unlink()
     return sorted(failing)
+
+
+def coqchk(module: str, timeout=1800):
+    """independent re-check of the compiled property file and everything it depends on;
+    returns the CONTEXT SUMMARY as a dict of lists"""
+    p = subprocess.run(['timeout', str(timeout), 'coqchk', '-silent', '-o', '-Q', str(COQ), 'Cirbo', module],
+                       cwd=COQ, capture_output=True, text=True)
+    out = p.stdout + p.stderr
+    summary = {}
+    cur = None
+    for line in out.splitlines():
+        m = re.match(r'^\* (.*?):\s*(.*)$', line)
+        if m:
+            cur = m.group(1)
+            summary[cur] = [m.group(2)] if m.group(2) else []
+        elif cur and line.strip():
+            summary[cur].append(line.strip())
+    return p.returncode, summary, out[-2000:]
